@@ -396,3 +396,63 @@ theorem py_mme_entry (s : Nat) (dag undag : List Nat) :
 
 
 end GenPy
+
+namespace GenPy
+open PyPrelude Model
+
+theorem castL_length (l : List Nat) : (castL l).length = l.length := by unfold castL; simp
+
+theorem castL_getD (l : List Nat) (d : Nat) : (castL l).getD d 0 = ((l.getD d 0 : Nat) : Int) := by
+  unfold castL
+  induction l generalizing d with
+  | nil => simp
+  | cons x xs ih =>
+    cases d with
+    | zero => simp
+    | succ d => simpa using ih d
+
+theorem py_mmes_fold (source : Nat) (ops : List Nat) : ∀ (ds : List Nat) (t p : Nat),
+    ds.foldl (fun (st : Int × Int) iop =>
+        (unset_bit st.1 ((ops.getD iop 0 : Nat) : Int),
+         st.2 + ((iop : Int) + 1) * ((countBitsBetween source (ops.getD iop 0) (ops.getD (iop + 1) 0) : Nat) : Int)))
+        ((t : Int), (p : Int)) =
+      castP (ds.foldl (fun (tp : Nat × Nat) iop =>
+        (unsetBit tp.1 (ops.getD iop 0),
+         tp.2 + (iop + 1) * countBitsBetween source (ops.getD iop 0) (ops.getD (iop + 1) 0))) (t, p)) := by
+  intro ds
+  induction ds with
+  | nil => intro t p; rfl
+  | cons d rest ih =>
+    intro t p
+    rw [List.foldl_cons, List.foldl_cons]
+    have e1 : unset_bit (t : Int) ((ops.getD d 0 : Nat) : Int) = ((unsetBit t (ops.getD d 0) : Nat) : Int) := py_unset_bit _ _
+    have e2 : ((p : Int) + ((d : Int) + 1) * ((countBitsBetween source (ops.getD d 0) (ops.getD (d + 1) 0) : Nat) : Int)) =
+        ((p + (d + 1) * countBitsBetween source (ops.getD d 0) (ops.getD (d + 1) 0) : Nat) : Int) := by push_cast; rfl
+    simp only [e1, e2]
+    exact ih _ _
+
+/-- the reference-path k-fold annihilation map kernel, as translated from fci_graph_set.py on every run, is the
+    Model's `mapSetEntry` -/
+theorem py_mmes_entry (source mask : Nat) (ops : List Nat) :
+    mmes_entry (source : Int) (mask : Int) (castL ops) =
+      (if ((source &&& mask) ^^^ mask) = 0 then
+        some ((((mapSetEntry ops source).2.1 : Nat) : Int), (((mapSetEntry ops source).2.2 : Nat) : Int)) else none) := by
+  unfold mmes_entry
+  simp only [pyAnd, pyXor, land_cast, xor_cast, castL_length, castL_getD, py_count_bits_above, py_unset_bit,
+    py_count_bits_between]
+  have z : ((((source &&& mask) ^^^ mask : Nat) : Int) ≠ 0) ↔ ((source &&& mask) ^^^ mask) ≠ 0 := by exact_mod_cast Iff.rfl
+  by_cases h : ((source &&& mask) ^^^ mask) = 0
+  · have d1 : decide ((((source &&& mask) ^^^ mask : Nat) : Int) ≠ 0) = false := by
+      simp only [decide_eq_false_iff_not]; exact fun e => (z.1 e) h
+    simp only [h, Nat.cast_zero, ne_eq, not_true_eq_false, decide_false, Bool.false_eq_true, if_false, if_true]
+    have hp : (((countBitsAbove source (ops.getD (ops.length - 1) 0) : Nat) : Int) * (ops.length : Int)) =
+        ((countBitsAbove source (ops.getD (ops.length - 1) 0) * ops.length : Nat) : Int) := by push_cast; rfl
+    rw [hp, py_mmes_fold]
+    unfold mapSetEntry castP
+    rfl
+  · have d1 : decide ((((source &&& mask) ^^^ mask : Nat) : Int) ≠ 0) = true := by
+      simp only [decide_eq_true_eq]; exact z.2 h
+    simp [d1, h]
+
+
+end GenPy
